@@ -309,6 +309,38 @@ func (j *rootJudge) genAndJudge(r *gen.RNG, i int) {
 		}
 		c, _ := r.Coef()
 		j.judge(ref.Encode(false, c, r.Range(ref.MinExp, ref.MaxExp)), false, nil, 0)
+	case 7: // result-driven: the root's coefficient lands next to an internal threshold of the result path
+		cube := r.Bool()
+		k := 2
+		if cube {
+			k = 3
+		}
+		R := r.ThresholdFull()
+		if r.Chance(1, 4) {
+			R, _ = r.Coef()
+			if ref.NumDigits(R) < 34 {
+				R.Mul(R, ref.Pow10(34-ref.NumDigits(R)))
+			}
+			if R.Sign() == 0 {
+				R = ref.Pow10(33)
+			}
+		}
+		P := new(big.Int).Exp(R, big.NewInt(int64(k)), nil)
+		d := ref.NumDigits(P) - r.Pick(34, 34, 34, 33, 30)
+		xc := new(big.Int).Quo(P, ref.Pow10(d))
+		if r.Bool() {
+			xc.Add(xc, ref.One)
+		}
+		if xc.Cmp(ref.Cmax) > 0 {
+			xc.Quo(xc, ref.Ten)
+			d++
+		}
+		E := r.Range(-1900, 1900)
+		if r.Chance(3, 4) {
+			E = r.Range(-30, 30)
+		}
+		j.sh.Cell("gen/root-targeted")
+		j.judge(ref.Encode(neg && cube, xc, gen.ClampExp(k*E+d)), cube, nil, 0)
 	default: // every exponent class x coefficient shapes
 		c, _ := r.Coef()
 		if c.Sign() == 0 {
